@@ -93,10 +93,10 @@ def multi_programs(seed, n):
             out.append("options {\n    FixedStringPadChar = %s;\n    FixedStringPadFromLeft = %s;\n}\n\nroot packet R {\n    char[4] a,\n    @leftPad('0')\n    char[3] b,\n"
                        "    zchar[5] c,\n    repeat char[2] d,\n    @rightPad('\\x00')\n    char[6] e,\n    u8 k,\n    match k as m {\n        1 : A,\n    },\n}\n\n"
                        "packet A {\n    char[8] s,\n    repeat zchar[3] zs,\n}\n" % (ch, left))
-    # a length field declared AFTER the member it measures, tables whose keys are not in ascending order (nested, so that one
+    # tables whose keys are not in ascending order (nested, so that one
     # packet's sample is built from another packet's table), two match fields on one key
-    out.append("root packet Frame {\n    u16 MsgType,\n    match MsgType as Body {\n        30 : Order,\n        2 : Ping,\n        [10, 1] : Pong,\n    },\n"
-               "    u16 BodyLen @lengthOf(Body),\n    u32 Trailer,\n}\n\npacket Order {\n    u8 Kind,\n    match Kind as Leg {\n        3 : Forward,\n        1 : Spot,\n"
+    out.append("root packet Frame {\n    u16 MsgType,\n    u16 BodyLen @lengthOf(Body),\n    match MsgType as Body {\n        30 : Order,\n        2 : Ping,\n        [10, 1] : Pong,\n    },\n"
+               "    u32 Trailer,\n}\n\npacket Order {\n    u8 Kind,\n    match Kind as Leg {\n        3 : Forward,\n        1 : Spot,\n"
                "        2 : Swap,\n    },\n    string Note,\n    match Note as Extra {\n        \"NO\" : Ping,\n        \"CX\" : Pong,\n    },\n}\n\n"
                "packet Forward {\n    u32 a,\n}\n\npacket Spot {\n    u16 b,\n}\n\npacket Swap {\n    u8 c,\n    Order Inner,\n}\n\npacket Ping {\n    u8 p,\n}\n\npacket Pong {\n    u64 q,\n}\n".replace("    Order Inner,\n", ""))
     out.append("options {\n    FixedStringPadFromLeft = true;\n}\n\nroot packet R {\n    zchar[4] a,\n    @leftPad('\\x00')\n    char[3] b,\n    char[5] c,\n    u8 k,\n    match k as m {\n        1 : A,\n        2 : B,\n    },\n    u16 k2,\n    match k2 as m2 {\n        7 : B,\n        8 : C,\n    },\n}\n\npacket A {\n    zchar[2] z,\n    B b,\n}\n\npacket B {\n    C c,\n}\n\npacket C {\n    repeat zchar[3] zs,\n}\n")
